@@ -128,6 +128,9 @@ pub fn env_files(thorough: bool) -> Report {
             fs::write(l.join(d).join(std::ffi::OsString::from_vec(b"A.app\xE9nd".to_vec())), "stale").unwrap();
             fs::write(l.join(d).join(std::ffi::OsString::from_vec(b"GHOST.\xFF".to_vec())), "stale").unwrap();
             fs::write(l.join(d).join("GHOST2.bak"), "stale").unwrap();
+            // an env file may be a symbolic link to a regular file (read through the link); a dangling one is an error elsewhere, not placed here
+            fs::create_dir_all(l.join("share")).unwrap(); fs::write(l.join("share").join(format!("java_home_{tag}")), format!("/layers/jdk-{tag}")).unwrap();
+            std::os::unix::fs::symlink(l.join("share").join(format!("java_home_{tag}")), l.join(d).join("JAVA_HOME.override")).unwrap();
         }
         match LayerEnv::read_from_layer_dir(l) {
             Err(e) => r.violation("read_rules", "read failed on a hand-made CNB layout", "all suffixes in env, env.build, env.launch, env.launch/web".into(), "Ok".into(), format!("{e}")),
@@ -141,7 +144,7 @@ pub fn env_files(thorough: bool) -> Report {
                     let got = le.apply(scope.clone(), &e0);
                     let mut a = String::from("a0"); let mut pv = String::from("p0"); let mut d2 = None; let mut o = String::new(); let mut n = String::new();
                     for c in &chain { a = format!("{a}|+{c}"); pv = format!("{c}+{pv}"); if d2.is_none() { d2 = Some(format!("d2-{c}")); } o = format!("o-{c}\n"); n = format!("dotted-{c}"); }
-                    let want = [("A", a), ("P", pv), ("D", "keep".to_string()), ("D2", d2.unwrap()), ("O", o), ("N.A.ME", n)];
+                    let want = [("A", a), ("P", pv), ("D", "keep".to_string()), ("D2", d2.unwrap()), ("O", o), ("N.A.ME", n), ("JAVA_HOME", format!("/layers/jdk-{}", chain.last().unwrap()))];
                     for g in ["GHOST", "GHOST2"] { if got.get(g).is_some() { r.violation("read_rules", "files with an unknown suffix (also a non-UTF-8 one) are ignored", format!("directory {d}, file {g}.<unknown suffix>"), "variable unset".into(), format!("{:?}", got.get(g))); } }
                     for (k, v) in want { if got.get(k).map(|x| x.to_string_lossy().to_string()) != Some(v.clone()) { r.violation("read_rules", "a hand-made CNB layout is read into the right scope with the right behaviour for every suffix", format!("directory {d}, variable {k}, start A=a0 P=p0 D=keep O=o0"), v, format!("{:?}", got.get(k))); } }
                 }
@@ -202,6 +205,11 @@ pub fn layer_paths(_thorough: bool) -> Report {
             let mut e1 = Env::new(); e1.insert("PATH", "/usr/bin");
             let g = le.apply(q.clone(), &e1);
             let want = if on && isdir(0) { let mut s = p("bin"); s.push(":/usr/bin"); s } else { "/usr/bin".into() };
+            // a variable that is DEFINED but empty has no element to join with: no trailing separator
+            let mut e2 = Env::new(); e2.insert("PATH", "");
+            let g2 = le.apply(q.clone(), &e2);
+            let want2: std::ffi::OsString = if on && isdir(0) { p("bin") } else { "".into() };
+            if g2.get("PATH") != Some(&want2) { r.violation("implicit_paths_join", "implicit PATH prepended to a variable that is defined as the empty string: no separator", format!("kinds={kinds:?} scope={q:?} start PATH=\"\""), format!("{want2:?}"), format!("{:?}", g2.get("PATH"))); }
             if g.get("PATH") != Some(&want) { r.violation("implicit_paths_join", "implicit PATH is prepended with the separator", format!("kinds={kinds:?} scope={q:?}"), format!("{want:?}"), format!("{:?}", g.get("PATH"))); }
         }
         // never persisted: read -> write leaves the tree unchanged
